@@ -295,6 +295,7 @@ func shapes(W int) []*shape {
 	}
 	out = append(out, familyShapes()...)
 	out = append(out, sameClassShapes()...)
+	out = append(out, sameNamesShapes()...)
 	for _, sh := range out {
 		finishShape(sh)
 	}
@@ -368,7 +369,69 @@ func familyShapes() []*shape {
 const (
 	famTwice     = "family:same-element-extracted-twice"
 	famSameClass = "family:same-class-rules-one-ends-in-empty-symbol"
+	famSameNames = "family:same-node-names-whole-rule-vs-prefix"
 )
+
+// sameNamesShapes: the same node names used in two rules of one grammar, once as arrows that cover
+// the whole rule (the outermost one becomes the rule's own node type) and once as the very same
+// arrows over a proper prefix of a longer rule (nothing is the rule's own type, all are in-rule
+// reports). Both rules list the same ranges (same types, same symbol positions) and differ only in
+// what follows, so any sharing of per-rule report lists between rules must take the promotion into
+// account. The general enumeration gives every arrow its own name (N1, N2, ...), hence these are
+// listed explicitly: both textual orders, one and two nested levels, inside one nonterminal and
+// through a second / third nonterminal, with a nonterminal-level arrow and with an arrow over
+// nothing. Node names X1, X2 are preset (finishShape keeps non-empty names).
+func sameNamesShapes() []*shape {
+	tok := func(ch byte) *extsem.Expr { return &extsem.Expr{Kind: extsem.KTok, Ch: ch} }
+	ref := func(nt int) *extsem.Expr { return &extsem.Expr{Kind: extsem.KRef, NT: nt} }
+	x := func(n int) *extsem.Arrow { return &extsem.Arrow{Name: "X" + itoa(n)} }
+	grp := func(a *extsem.Arrow, parts ...*extsem.Expr) *extsem.Expr {
+		return &extsem.Expr{Kind: extsem.KGroup, Alts: []*extsem.Alt{{Parts: parts, Arrow: a}}}
+	}
+	alt := func(a *extsem.Arrow, parts ...*extsem.Expr) *extsem.Alt { return &extsem.Alt{Parts: parts, Arrow: a} }
+	nt := func(name string, alts ...*extsem.Alt) *extsem.Nonterm { return &extsem.Nonterm{Name: name, Alts: alts} }
+	gr := func(nts ...*extsem.Nonterm) *extsem.Grammar { return &extsem.Grammar{NTs: nts} }
+	// building blocks (fresh copies on every call)
+	whole1 := func() *extsem.Alt { return alt(x(1), tok('a')) }                      // a -> X1
+	prefix1 := func() *extsem.Alt { return alt(nil, grp(x(1), tok('a')), tok('b')) } // (a -> X1) b
+	whole2 := func() *extsem.Alt { return alt(x(2), grp(x(1), tok('a')), tok('b')) } // (a -> X1) b -> X2
+	prefix2 := func() *extsem.Alt {                                                  // ((a -> X1) b -> X2) c
+		return alt(nil, grp(x(2), grp(x(1), tok('a')), tok('b')), tok('c'))
+	}
+	gs := []*extsem.Grammar{
+		// S : (a -> X1) b | c Y ;  Y : a -> X1 ;              (prefix first)
+		gr(nt("S", prefix1(), alt(nil, tok('c'), ref(1))), nt("Y", whole1())),
+		// S : Y | Z ;  Y : (a -> X1) b -> X2 ;  Z : ((a -> X1) b -> X2) c ;   (whole first, two levels)
+		gr(nt("S", alt(nil, ref(1)), alt(nil, ref(2))), nt("Y", whole2()), nt("Z", prefix2())),
+		// S : Y | Z ;  Y : ((a -> X1) b -> X2) c ;  Z : (a -> X1) b -> X2 ;   (prefix first, two levels)
+		gr(nt("S", alt(nil, ref(1)), alt(nil, ref(2))), nt("Y", prefix2()), nt("Z", whole2())),
+		// S : Y | Z ;  Y : a -> X1 ;  Z : (a -> X1) b ;       (whole first, one level)
+		gr(nt("S", alt(nil, ref(1)), alt(nil, ref(2))), nt("Y", whole1()), nt("Z", prefix1())),
+		// one nonterminal, both orders, one and two levels
+		gr(nt("S", whole1(), prefix1())),
+		gr(nt("S", prefix1(), whole1())),
+		gr(nt("S", whole2(), prefix2())),
+		gr(nt("S", prefix2(), whole2())),
+		// S : (a -> X1) b | c Y ;  Y -> X1 : a ;              (whole rule through the nonterminal's arrow)
+		gr(nt("S", prefix1(), alt(nil, tok('c'), ref(1))), &extsem.Nonterm{Name: "Y", Default: x(1), Alts: []*extsem.Alt{alt(nil, tok('a'))}}),
+		// S : (%empty -> X1) a | b Y ;  Y : %empty -> X1 ;    (arrow over nothing: whole empty rule vs prefix)
+		gr(nt("S", alt(nil, grp(x(1)), tok('a')), alt(nil, tok('b'), ref(1))), nt("Y", alt(x(1)))),
+		// S : c Y | (a -> X1) b (a -> X1) ;  Y : a -> X1 ;    (the prefix rule repeats the name further right)
+		gr(nt("S", alt(nil, tok('c'), ref(1)), alt(nil, grp(x(1), tok('a')), tok('b'), grp(x(1), tok('a')))), nt("Y", whole1())),
+		// S : Y b | c Y ;  Y : a -> X1 | (a -> X1) a ;        (both shapes behind one nonterminal used twice)
+		gr(nt("S", alt(nil, ref(1), tok('b')), alt(nil, tok('c'), ref(1))), nt("Y", whole1(), alt(nil, grp(x(1), tok('a')), tok('a')))),
+	}
+	var out []*shape
+	for _, g := range gs {
+		c := g.Clone()
+		var lab []byte
+		for _, p := range c.TermSlots() {
+			lab = append(lab, *p)
+		}
+		out = append(out, &shape{g: c, weight: 9, fixed: []string{string(lab)}, family: true, fam: famSameNames})
+	}
+	return out
+}
 
 // sameClassShapes: two rules of one nonterminal that the table minimizer may treat as one class
 // (same left-hand side, length and node type, through a nonterminal-level arrow) although only
@@ -426,7 +489,9 @@ func finishShape(sh *shape) {
 		switch a.Kind {
 		case extsem.NodeArrow:
 			n++
-			a.Name = "N" + itoa(n)
+			if a.Name == "" { // families preset names that must coincide
+				a.Name = "N" + itoa(n)
+			}
 		case extsem.CategoryArrow:
 			c++
 			a.Name = "I" + itoa(c)
